@@ -21,6 +21,7 @@ func init() {
 		"w.addr":            exWAddr,
 		"w.gwa":             exWGwa,
 		"w.gsi":             exWGsi,
+		"w.codehash":        exWCodeHash,
 		"w.send":            exWSend,
 		"w.sendc":           exWSend,
 		"go.send.cancel":    goSendCancel,
@@ -208,6 +209,15 @@ func exWSend(a []string) string {
 
 // go.addr.apis <ver> <seed> <wc|_> <sub|_> <net|_>: the address is the same through every API that yields it and is
 // the hash of the state-init GenerateStateInit returns; the state-init carries the version's code.
+// w.codehash <ver> <code>: the representation hash of the code cell the library ships for the version
+func exWCodeHash(a []string) string {
+	hs, err := wallet.GetCodeByVer(wallet.Version(atoi(a[0]))).Hash()
+	if err != nil {
+		return "err"
+	}
+	return "ok " + h.Hex(hs)
+}
+
 func goAddrApis(a []string) string {
 	ver := wallet.Version(atoi(a[0]))
 	key := keyFromSeed(a[1])
@@ -715,6 +725,7 @@ func genC15(g *h.G) {
 	// the code cells hash as the model says (ties CellOrd.hashO to the real hash for the 12 code DAGs)
 	for _, v := range supportedVers {
 		g.Emit("cell.hash", codeTable(v))
+		g.Emit("w.codehash", fmt.Sprint(int(v)), codeTable(v)) // every version's code pinned to the published hash
 	}
 	for _, wc := range []int{0, -1, 1, 127, -128, 255, 256, -129} {
 		for _, net := range []int32{-239, -3, 0, 1, 2147483647, -2147483648} {
@@ -845,16 +856,24 @@ func genC15(g *h.G) {
 		wait := 0
 		polls := "-"
 		hist := "none"
-		if g.Rng.Intn(3) != 0 {
+		// every 8th case, deterministically: the seqno advances exactly at the poll that falls ON the deadline (poll 10 of
+		// step wait/10): it is never served before the deadline, so the send must time out
+		forced := i%8 == 3
+		if forced || g.Rng.Intn(3) != 0 {
 			wait = 300
 			adv := -1 // index of the first good poll
-			switch g.Rng.Intn(4) {
-			case 0: // never
+			if forced {
+				adv = 10
+				hist = "advance_at_the_deadline_poll"
+			}
+			switch pick := g.Rng.Intn(4); {
+			case forced:
+			case pick == 0:
 				hist = "never"
-			case 1, 2:
+			case pick == 1 || pick == 2:
 				adv = g.Rng.Intn(5)
 				hist = fmt.Sprintf("advance_at_%d", adv+1)
-			case 3: // only far after the deadline
+			case pick == 3: // only far after the deadline
 				adv = 11
 				hist = "after_deadline"
 			}
